@@ -481,8 +481,17 @@ fn run_fault(f: &Fault, site: usize, pad: usize, ctx: &tera::Context, acc: &mut 
                         acc.case(true, "other-error-than-planted");
                         acc.count(&format!("other-error/{}@{}", f.id, SITES[site]), 1);
                     } else {
+                        let shown = display.clone().unwrap_or_default();
                         let p = judge_report(r, errclass, display, &info, Judge::Full, acc);
                         acc.case(true, &format!("{errclass}:{p}"));
+                        if pad == 4 && site % 3 == 1 && acc.wants_sample() {
+                            acc.sample(|| {
+                                let mut o = span_json(r);
+                                o["display"] = json!(shown);
+                                o["precision"] = json!(p);
+                                info.json(o)
+                            });
+                        }
                     }
                 }
                 ErrorKind::Msg(text) if f.class == Class::AddTime && phase == "add" => {
@@ -495,6 +504,9 @@ fn run_fault(f: &Fault, site: usize, pad: usize, ctx: &tera::Context, acc: &mut 
                     }
                     let p = judge_msg_report(text, &info, acc);
                     acc.case(true, &format!("addtime:{p}"));
+                    if pad == 4 && acc.wants_sample() {
+                        acc.sample(|| info.json(json!({"kind": "Msg", "display": text, "precision": p})));
+                    }
                 }
                 other => {
                     // position-less: listed, not judged (DESIGN §4 C12)
@@ -552,6 +564,14 @@ fn run_edit(id: &str, text: &str, site: usize, pad: usize, count_messages: bool,
                         acc.count(&format!("site/{}", errsites::classify("syntax", r.message())), 1);
                     }
                     acc.case(true, "syntax-error");
+                    if pad == 4 && acc.wants_sample() {
+                        let shown = err.to_string();
+                        acc.sample(|| {
+                            let mut o = span_json(r);
+                            o["display"] = json!(shown);
+                            info.json(o)
+                        });
+                    }
                 }
                 ErrorKind::Msg(text) if text.starts_with("error: ") && text.contains("--> ") => {
                     // the edit produced an unknown reference: a report without byte range
@@ -634,13 +654,16 @@ fn main() {
     run.rule(
         "One case = one planted fault (catalogue entry, or one token edit of a small valid template) at one \
          site of the multi-template set with one padding in front of it; cases are distinct by construction \
-         (fault x site x padding). Non-trivial = the engine answered with an error report that was judged \
+         (catalogue texts are pairwise different, deletions of one template spell different texts (guarded), \
+         no-op substitutions are skipped and equal texts inside one work item of the two-deviation family are \
+         run once; two different edit pairs of different first edits could in principle spell the same text, \
+         this is not removed). Non-trivial = the engine answered with an error report that was judged \
          (SyntaxError / RenderingError with its span, or an add-time report); edits that leave the template \
          valid and position-less failures that are not in the documented list are counted as trivial.",
     );
     run.assume("the fault catalogue (props/src/bin/c12/catalogue.rs) stands for 'all failing sources and renders': one or more representatives per error site of vm/interpreter.rs, parsing/lexer.rs, parsing/parser.rs and tera.rs validate_template_references, found by reading the pinned tree");
     run.assume("'covers the offending token or expression' is read leniently: the span lies inside the planted {{..}} / {%..%} construct and contains one whole culprit token (the operand the message names, the operator for pair errors, the unknown name)");
-    run.assume("position-less render failures (component recursion limit, invalid UTF-8 output) are listed, not judged; the observation point of the property is ReportError");
+    run.assume("position-less render failures are listed, not judged (the observation point of the property is ReportError): the component recursion limit is provoked and listed; I/O and UTF-8 conversion errors of the output writer are not provoked here");
     run.assume("line/column conventions are the documented ones: lines split on \\n from 1, columns in chars from 0 (\\r is a character), locus printed as col+1");
 
     let n_of = |c: Class| faults.iter().filter(|f| f.class == c).count();
@@ -701,14 +724,6 @@ fn main() {
                 let (fi, site) = items[item as usize];
                 for pad in 0..PADS.len() {
                     run_fault(&faults[fi], site, pad, &ctx, acc);
-                }
-                if item % 97 == 0 && acc.wants_sample() {
-                    let f = &faults[fi];
-                    let p = plant(site, PADS[2].1, &f.text, !f.at_eof);
-                    acc.sample(|| {
-                        json!({"fault": f.id, "site": SITES[site], "padding": PADS[2].0,
-                               "templates": p.templates.iter().map(|(n, s)| json!({"name": n, "source": s})).collect::<Vec<_>>()})
-                    });
                 }
             },
         );
